@@ -270,6 +270,8 @@ impl DOP853 {
 
         // --- Main integration loop ---
         loop {
+            #[cfg(feature = "verif")]
+            crate::verif::tick(crate::verif::DOP853_MAIN);
             // Check for maximum number of steps
             if steps.total > nmax {
                 status = Status::NeedLargerNMax;
@@ -445,6 +447,8 @@ impl DOP853 {
 
                 // Stiffness detection
                 if (steps.accepted % nstiff == 0) || (iasti > 0) {
+                    #[cfg(feature = "verif")]
+                    crate::verif::tick(crate::verif::DOP853_STIFF_TEST);
                     let mut stnum: Float = 0.0;
                     let mut stden: Float = 0.0;
                     for i in 0..n {
@@ -642,6 +646,8 @@ impl DOP853 {
                 }
             } else {
                 // Step rejected
+                #[cfg(feature = "verif")]
+                crate::verif::tick(crate::verif::DOP853_REJECT);
                 hnew = h / facc1.min(fac11 / safety_factor);
                 reject = true;
                 if steps.accepted > 1 {
